@@ -2,17 +2,41 @@ import TarpcModel.Driver.Basic
 import TarpcModel.Monitors.C20
 /-
 C20 families behind the line protocol:
-  `c20rr`    header `n=<backends>`              ops `call <req>` | `poll <id>` | `drop <id>`
+  `c20rr`    header `n=<backends>`              ops `call <req>` | `poll <id>` | `drop <id>` |
+                                                    `set-result <backend> ok|shutdown|deadline|server`
   `c20hash`  header `n=<backends> seed=<u64>`   same ops
-  `c20retry` header `pk=<policy kind> max=<m>`  ops `result ok <v>` | `result err <k>` | `decide <0|1>` | `call <req>`
+      obs `created <id> <req>` | `picked <id> <backend> <req>` + `answered <id> <ok|shutdown|deadline|server>` |
+          `panicked <id>` | `dropped <id>` | `result-set <backend> <kind>` | `noop`
+  `c20retry` header `pk=<policy kind> max=<m>`
+      ops `result ok|err|send <v> [<delay ns>]` | `decide <0|1>` |
+          `call <req> [d=<ns until the deadline> trace=<trace id>:<span id>:<S|U>]`   (default `d=10000000000 trace=0:0:U`)
+      obs `start <req> at=<ns> deadline=<ns> trace=<t>:<s>:<S|U>` | `backend <req>` |
+          `attempt <i> at=<ns> deadline=<ns> trace=<t>:<s>:<S|U>` | `policy <i> ok|err|send <v> <0|1>` |
+          `ret ok|err|send <v>` | `stuck`
+      (`at` / `deadline`: ns after the script's base instant under the harness's virtual clock)
 -/
 namespace TarpcModel.Driver
 open TarpcModel.Stubs
+
+def c20ShowKind : Nat → String
+  | 0 => "ok"
+  | 1 => "shutdown"
+  | 2 => "deadline"
+  | 3 => "server"
+  | k => s!"?{k}"
+
+def c20ParseKind : String → Option Nat
+  | "ok" => some 0
+  | "shutdown" => some 1
+  | "deadline" => some 2
+  | "server" => some 3
+  | _ => none
 
 def c20ParseLbOp : List String → Option LbOp
   | ["call", r] => r.toNat?.map .call
   | ["poll", i] => i.toNat?.map .poll
   | ["drop", i] => i.toNat?.map .drop
+  | ["set-result", b, k] => do some (.setResult (← b.toNat?) (← c20ParseKind k))
   | _ => none
 
 def c20ShowLbObs : LbObs → String
@@ -20,6 +44,8 @@ def c20ShowLbObs : LbObs → String
   | .picked id b req => s!"picked {id} {b} {req}"
   | .panicked id => s!"panicked {id}"
   | .dropped id => s!"dropped {id}"
+  | .resultSet b k => s!"result-set {b} {c20ShowKind k}"
+  | .answered id k => s!"answered {id} {c20ShowKind k}"
   | .noop => "noop"
 
 def c20ParseLbObs : List String → Option LbObs
@@ -27,6 +53,8 @@ def c20ParseLbObs : List String → Option LbObs
   | ["picked", id, b, req] => do some (.picked (← id.toNat?) (← b.toNat?) (← req.toNat?))
   | ["panicked", id] => id.toNat?.map .panicked
   | ["dropped", id] => id.toNat?.map .dropped
+  | ["result-set", b, k] => do some (.resultSet (← b.toNat?) (← c20ParseKind k))
+  | ["answered", id, k] => do some (.answered (← id.toNat?) (← c20ParseKind k))
   | ["noop"] => some .noop
   | _ => none
 
@@ -51,6 +79,7 @@ def c20hash : Family := c20Lb .hash
 def c20ParseRes : String → String → Option Res
   | "ok", v => v.toNat?.map .ok
   | "err", k => k.toNat?.map .err
+  | "send", k => k.toNat?.map .send
   | _, _ => none
 
 def c20ParseBool : String → Option Bool
@@ -60,22 +89,51 @@ def c20ParseBool : String → Option Bool
 
 def c20ShowBool (b : Bool) : String := if b then "1" else "0"
 
+/-- `<key>=<value>`: the value. -/
+def c20Val (key tok : String) : Option String :=
+  match tok.splitOn "=" with
+  | [k, v] => if k = key then some v else none
+  | _ => none
+
+def c20NatVal (key tok : String) : Option Nat := (c20Val key tok).bind (·.toNat?)
+
+/-- `trace=<trace id>:<span id>:<S|U>` -/
+def c20TraceVal (tok : String) : Option (Nat × Nat × Bool) := do
+  let v ← c20Val "trace" tok
+  match v.splitOn ":" with
+  | [t, s, "S"] => some (← t.toNat?, ← s.toNat?, true)
+  | [t, s, "U"] => some (← t.toNat?, ← s.toNat?, false)
+  | _ => none
+
+def c20ParseCtx (dl tr : String) : Option RtCtx := do
+  let d ← c20NatVal "deadline" dl
+  let (t, s, b) ← c20TraceVal tr
+  some { deadline := d, traceId := t, spanId := s, sampled := b }
+
+def c20ShowCtx (c : RtCtx) : String := s!"deadline={c.deadline} trace={showTrace c}"
+
 def c20ParseRtOp : List String → Option RtOp
-  | ["result", t, v] => (c20ParseRes t v).map .result
+  | ["result", t, v] => (c20ParseRes t v).map (.result · 0)
+  | ["result", t, v, d] => do some (.result (← c20ParseRes t v) (← d.toNat?))
   | ["decide", b] => (c20ParseBool b).map .decide
-  | ["call", r] => r.toNat?.map .call
+  | ["call", r] => r.toNat?.map (.call · 10000000000 0 0 false)
+  | ["call", r, d, tr] => do
+      let (t, s, b) ← c20TraceVal tr
+      some (.call (← r.toNat?) (← c20NatVal "d" d) t s b)
   | _ => none
 
 def c20ShowRtObs : RtObs → String
-  | .start q => s!"start {q}"
+  | .start q now c => s!"start {q} at={now} {c20ShowCtx c}"
   | .backend q => s!"backend {q}"
+  | .attempt i now c => s!"attempt {i} at={now} {c20ShowCtx c}"
   | .policy i r d => s!"policy {i} {showRes r} {c20ShowBool d}"
   | .ret r => s!"ret {showRes r}"
   | .stuck => "stuck"
 
 def c20ParseRtObs : List String → Option RtObs
-  | ["start", q] => q.toNat?.map .start
+  | ["start", q, a, dl, tr] => do some (.start (← q.toNat?) (← c20NatVal "at" a) (← c20ParseCtx dl tr))
   | ["backend", q] => q.toNat?.map .backend
+  | ["attempt", i, a, dl, tr] => do some (.attempt (← i.toNat?) (← c20NatVal "at" a) (← c20ParseCtx dl tr))
   | ["policy", i, t, v, d] => do some (.policy (← i.toNat?) (← c20ParseRes t v) (← c20ParseBool d))
   | ["ret", t, v] => (c20ParseRes t v).map .ret
   | ["stuck"] => some .stuck
@@ -94,9 +152,7 @@ def c20retry : Family where
     match c20ParseRtObs toks with
     | some o => monRtStep m o
     | none => m.fail ("unparsable obs: " ++ " ".intercalate toks)
-  monVerdict m :=
-    if m.accepts then none
-    else some (if m.ok then "trace ends in the middle of a call" else m.why)
+  monVerdict m := m.verdict
 
 end TarpcModel.Driver
 
